@@ -5,6 +5,7 @@ import (
 	"go/ast"
 	"go/token"
 	"go/types"
+	"golang.org/x/tools/go/packages"
 	"strings"
 
 	"golang.org/x/tools/go/cfg"
@@ -100,15 +101,16 @@ type Path struct {
 // Engine
 
 type Engine struct {
-	single map[*Func]int // number of call sites per function (see singleCallSite)
-	P      *Program
-	cache  map[*Func][]Path
-	combs  map[*types.Var]*combSummary // func-typed parameter -> how often the function calls it
-	busy   map[*Func]bool
-	MaxPth int
-	Trunc  []string       // functions whose path enumeration was truncated
-	inl    map[*Func]bool // helpers being inlined (recursion guard)
-	hcount map[*Func]int  // cached path counts of helper candidates
+	single   map[*Func]int // number of call sites per function (see singleCallSite)
+	P        *Program
+	cache    map[*Func][]Path
+	combs    map[*types.Var]*combSummary // func-typed parameter -> how often the function calls it
+	busy     map[*Func]bool
+	MaxPth   int
+	Trunc    []string       // functions whose path enumeration was truncated
+	inl      map[*Func]bool // helpers being inlined (recursion guard)
+	inlDepth map[*Func]int  // how often each of them is on the look-in stack
+	hcount   map[*Func]int  // cached path counts of helper candidates
 }
 
 type combSummary struct {
@@ -147,9 +149,68 @@ func calleeObj(info *types.Info, call *ast.CallExpr) types.Object {
 	obj := calleeObjRaw(info, call)
 	// a method of an instantiated generic type, or an instantiated generic function: the declaration
 	if f, ok := obj.(*types.Func); ok && f.Origin() != nil {
-		return f.Origin()
+		obj = f.Origin()
+	}
+	// a method of an unexported repository interface that exactly one repository type implements: that
+	// type's method (state held behind a small private interface is still that state)
+	if f, ok := obj.(*types.Func); ok {
+		if d := devirt[f]; d != nil {
+			return d
+		}
 	}
 	return obj
+}
+
+// devirt: interface method -> the only implementation (see buildDevirt).
+var devirt = map[*types.Func]*types.Func{}
+
+// ifaceImpl: unexported repository interface -> its only implementing type.
+var ifaceImpl = map[*types.Named]types.Type{}
+
+// buildDevirt fills devirt for every unexported named interface of a repository package that has exactly
+// one implementing named type among the repository packages.
+func buildDevirt(pkgs []*packages.Package) {
+	devirt = map[*types.Func]*types.Func{}
+	ifaceImpl = map[*types.Named]types.Type{}
+	var named []*types.Named
+	for _, pk := range pkgs {
+		sc := pk.Types.Scope()
+		for _, nm := range sc.Names() {
+			if tn, ok := sc.Lookup(nm).(*types.TypeName); ok && !tn.IsAlias() {
+				if n, ok := tn.Type().(*types.Named); ok && n.TypeParams().Len() == 0 {
+					named = append(named, n)
+				}
+			}
+		}
+	}
+	for _, in := range named {
+		iface, ok := in.Underlying().(*types.Interface)
+		if !ok || in.Obj().Exported() || iface.NumMethods() == 0 {
+			continue
+		}
+		var impls []types.Type
+		for _, n := range named {
+			if _, isIface := n.Underlying().(*types.Interface); isIface {
+				continue
+			}
+			if types.Implements(n, iface) {
+				impls = append(impls, n)
+			} else if types.Implements(types.NewPointer(n), iface) {
+				impls = append(impls, types.NewPointer(n))
+			}
+		}
+		if len(impls) != 1 {
+			continue
+		}
+		ifaceImpl[in] = impls[0]
+		for i := 0; i < iface.NumMethods(); i++ {
+			m := iface.Method(i)
+			obj, _, _ := types.LookupFieldOrMethod(impls[0], true, m.Pkg(), m.Name())
+			if f, ok := obj.(*types.Func); ok {
+				devirt[m] = f
+			}
+		}
+	}
 }
 
 func calleeObjRaw(info *types.Info, call *ast.CallExpr) types.Object {
@@ -1235,6 +1296,20 @@ func (c *fnCtx) inlineHelper(callee types.Object, call *ast.CallExpr) alts {
 	return c.inlineHelperX(callee, call, false)
 }
 
+// hasFuncParam: the function takes a function value.
+func hasFuncParam(def *Func) bool {
+	if def.Obj == nil {
+		return false
+	}
+	sig := def.Obj.Type().(*types.Signature)
+	for i := 0; i < sig.Params().Len(); i++ {
+		if _, ok := sig.Params().At(i).Type().Underlying().(*types.Signature); ok {
+			return true
+		}
+	}
+	return false
+}
+
 // inlineHelperX: anyPkg lifts the same-package restriction for unexported functions (used when the
 // function arrived as a value bound to a parameter of a looked-into helper).
 func (c *fnCtx) inlineHelperX(callee types.Object, call *ast.CallExpr, anyPkg bool) alts {
@@ -1243,7 +1318,13 @@ func (c *fnCtx) inlineHelperX(callee types.Object, call *ast.CallExpr, anyPkg bo
 		return nil // (path-heavy numeric code is not expanded further)
 	}
 	def := c.e.P.Funcs[f]
-	if def == nil || (def.Pkg != c.fn.Pkg && !f.Exported() && !anyPkg) || c.e.inl[def] || def == c.fn.origOrSelf() {
+	busy := def != nil && c.e.inl[def]
+	if busy && c.e.inlDepth[def] < 2 && hasFuncParam(def) {
+		// a higher-order helper met again inside the closure it was handed (locked(a, func(){ locked(b, …) })):
+		// not a recursion of the helper
+		busy = false
+	}
+	if def == nil || (def.Pkg != c.fn.Pkg && !f.Exported() && !anyPkg) || busy || def == c.fn.origOrSelf() {
 		return nil
 	}
 	if sig, ok := f.Type().(*types.Signature); ok && sig.Variadic() {
@@ -1267,9 +1348,16 @@ func (c *fnCtx) inlineHelperX(callee types.Object, call *ast.CallExpr, anyPkg bo
 		}
 	}
 	d := deriveFunc(def, c.fn, call, recv)
+	if c.e.inlDepth == nil {
+		c.e.inlDepth = map[*Func]int{}
+	}
 	c.e.inl[def] = true
+	c.e.inlDepth[def]++
 	sub := c.e.enumerate(d, c.depth+1)
-	delete(c.e.inl, def)
+	c.e.inlDepth[def]--
+	if c.e.inlDepth[def] == 0 {
+		delete(c.e.inl, def)
+	}
 	if len(sub) == 0 {
 		return nil
 	}
